@@ -156,10 +156,14 @@ impl fmt::Display for Display<'_> {
         let mut takes_exp = true;
         let mut n = self.spec.limit;
 
-        for d in emit(&mut rem, &den) {
-            if n == 0 {
-                break;
-            }
+        let mut it = emit(&mut rem, &den);
+
+        // Only pull a digit out of the remainder if it is going to be printed.
+        while n > 0 {
+            let d = match it.next() {
+                Some(d) => d,
+                None => break,
+            };
 
             if d.is_zero() && takes_exp {
                 exp -= 1;
@@ -196,6 +200,8 @@ impl fmt::Display for Display<'_> {
                 d.fmt(f)?;
             }
         }
+
+        drop(it);
 
         if !rem.is_zero() && self.spec.show_continuation {
             f.write_char('…')?;
